@@ -9,7 +9,7 @@ export CARGO_NET_OFFLINE=true
 case "$ID" in
   C01|C02) TARGETS="fz_roundtrip" ;;
   C03) TARGETS="fz_decode fz_client fz_stream" ;;
-  C05|C10|C17) TARGETS="fz_client fz_history" ;;
+  C05|C10|C17) TARGETS="fz_history fz_client" ;;
   C06|C07|C08|C11|C12|C13) TARGETS="fz_history" ;;
   C16) TARGETS="fz_stream" ;;
   C18) TARGETS="fz_decode" ;;
@@ -18,9 +18,14 @@ esac
 SECS="${VERIF_FUZZ_SECS:-480}"
 SEED="${VERIF_SEED:-1}"; [ "$SEED" = "0" ] && SEED=1
 BIN="$VERIF_DIR/harness/target/verif/rustun-verif"
+# the replay binary must be built from the same /repo tree as the fuzz targets
+cargo build --profile verif --offline >/dev/null 2>&1 || { echo "INCONCLUSIVE: harness build failed"; exit 2; }
 rc=0
 for T in $TARGETS; do
-  if ! cargo +nightly fuzz build "$T" >/tmp/rustun-fuzz-build.$$ 2>&1; then
+  # fz_history decides semantic invariants of a safe-Rust state machine: built without AddressSanitizer (5x the
+  # executions per second), in a target directory of its own so that the two flag sets do not evict each other
+  SAN=""; [ "$T" = "fz_history" ] && SAN="-s none --target-dir fuzz/target-nosan"
+  if ! cargo +nightly fuzz build $SAN "$T" >/tmp/rustun-fuzz-build.$$ 2>&1; then
     tail -20 /tmp/rustun-fuzz-build.$$; rm -f /tmp/rustun-fuzz-build.$$
     echo "INCONCLUSIVE: fuzz target $T did not build"; exit 2
   fi
@@ -29,7 +34,7 @@ for T in $TARGETS; do
   rm -rf "$CORPUS" "$ART"; mkdir -p "$CORPUS" "$ART"
   "$BIN" corpus "$T" "$CORPUS" >/dev/null || { echo "INCONCLUSIVE: corpus generation failed"; exit 2; }
   LOG="fuzz/artifacts/$T-$ID-$$.log"
-  VERIF_FOCUS="$ID" VERIF_DIR="$VERIF_DIR" cargo +nightly fuzz run "$T" "$CORPUS" -- -seed="$SEED" -max_total_time="$SECS" -fork=16 -len_control=0 -max_len=4096 \
+  VERIF_FOCUS="$ID" VERIF_DIR="$VERIF_DIR" cargo +nightly fuzz run $SAN "$T" "$CORPUS" -- -seed="$SEED" -max_total_time="$SECS" -fork=16 -len_control=0 -max_len=4096 \
       -artifact_prefix="$ART" -ignore_crashes=0 -print_final_stats=1 >"$LOG" 2>&1
   frc=$?
   EXECS=$(grep -Eo "#[0-9]+:" "$LOG" | tail -1 | tr -d '#:')
